@@ -91,7 +91,7 @@ fn spawn_monitor(start: std::time::Instant) {
 fn grammar_specs(tier: Tier) -> Vec<Spec> {
     match tier {
         Tier::Quick => {
-            let mut v = vec![g(2, 2, 3, 3), g(2, 0, 3, 3), g(2, 1, 3, 3), g(1, 3, 3, 2), Spec::Files { k: 1, cap: 250 }, Spec::Names { extra: 2 }];
+            let mut v = vec![g(2, 2, 3, 3), g(2, 0, 3, 3), g(2, 1, 3, 3), g(1, 3, 3, 2), Spec::Files { k: 1, cap: 250 }, Spec::Names { extra: 2 }, Spec::Scaled { deep: false }];
             v.extend(all_seed_nbh(1, 1, 100_000));
             v
         }
